@@ -387,3 +387,40 @@ def field_chain(t):
             chain.append("[%s]" % (t[2],))
         t = strip_calls(t[1])
     return t, chain[::-1]
+
+
+ADAPTER = re.compile(r"Iterator>?::(for_each|try_for_each|map|try_fold|fold|inspect|filter_map|flat_map|any|all|find|find_map|filter|position|take_while|skip_while)$")
+
+
+def with_closures(F, on_call, depth=2):
+    """wrap an on_call hook so that a closure handed to an iterator adapter is walked as the body of a loop over the
+    receiver's items: its calls reach the same hook, with the closure's captures bound to the caller's terms and its
+    argument bound to `next(receiver)`.  Events the nested walk appends go to the caller's path."""
+    state = {"depth": 0}
+
+    def hook(path, bb, t, name, args):
+        res = on_call(path, bb, t, name, args) if on_call else None
+        n = name or ""
+        if ADAPTER.search(n) and len(args) >= 2 and state["depth"] < depth:
+            for a in args[1:]:
+                if not (a and a[0] == "agg" and str(a[1]).startswith("closure:")):
+                    continue
+                cf = F.fns.get(str(a[1])[len("closure:"):])
+                if cf is None or not cf.body:
+                    continue
+                item = ("f", ("v", ("call", "<std::slice::Iter<'a, T> as std::iter::Iterator>::next", (args[0],), ("closure", bb, 0)), "Some"), "0")
+                init = Path()
+                init.env[1] = a
+                init.env[2] = item
+                init.facts = dict(path.facts)
+                cw = Walker(cf, follow_errors=False, max_visits=2, max_paths=300)
+                state["depth"] += 1
+                got = []
+                try:
+                    cw.run(init=init, on_call=hook, on_return=lambda p: got.append(list(p.events)))
+                finally:
+                    state["depth"] -= 1
+                if got:
+                    path.events += max(got, key=len)
+        return res
+    return hook
